@@ -68,6 +68,9 @@ fn map_value(spec: &DevSpec, from: usize, to: usize, v: f64) -> f64 {
     }
 }
 fn close(got: f32, want: f64, hops: usize) -> bool {
+    if !want.is_finite() || want.abs() > 1.0e37 {
+        return true; // the mapped value leaves the f32 range: nothing is claimed
+    }
     if want == 0.0 {
         return got == 0.0;
     }
@@ -239,7 +242,7 @@ fn one_dof() -> BoxedStrategy<DevSpec> {
     prop_oneof![3 => Just(DevSpec::Invert), 4 => ratio_strategy().prop_map(DevSpec::Gear), 1 => proptest::collection::vec((1u32..200).prop_map(|x| x as f32), 2..=6).prop_map(DevSpec::GearTeeth), 3 => (2u8..=6).prop_map(DevSpec::Axle)].boxed()
 }
 fn issue() -> BoxedStrategy<Issue> {
-    (0u8..5, 0u8..6, any::<bool>(), 0u8..3, gen::moderate(), any::<u16>()).prop_map(|(dev, term, external, kind, value, ts)| Issue { dev, term, external, kind, value, ts }).boxed()
+    (0u8..5, 0u8..6, any::<bool>(), 0u8..3, gen::wide(), any::<u16>()).prop_map(|(dev, term, external, kind, value, ts)| Issue { dev, term, external, kind, value, ts }).boxed()
 }
 fn round() -> BoxedStrategy<Round> {
     (proptest::collection::vec(issue(), 0..=4), prop_oneof![3 => Just(0u8), 1 => Just(1u8), 1 => Just(2u8)], proptest::collection::vec(0u8..5, 0..5)).prop_map(|(issues, order, perm)| Round { issues, order, perm }).boxed()
